@@ -56,6 +56,10 @@ def run(ctx):
         r17_2(ctx, fam, cont, fns_of(F, entry_p), cont_p)
         r17_3(ctx, fam, cont, fns_of(F, entry_p), fns_of(F, entries_p), make_owned, plain_read, entry_p)
     c07.clear_guard(ctx, c07.txn_fns(F), rule="R17.2")
+    # "changes the contents and returns exactly what the same operation on a plain vector would ... without notifying anyone"
+    from . import groups
+    groups.im_core(ctx)
+
 
 
 def r17_1(ctx, fam, cont, pub, entry_p):
